@@ -56,12 +56,45 @@ mod blob_types {
         pub y: String,
     }
 
+    /// a block the reader can live without: a damaged one reads as None
+    #[derive(Debug, Clone, PartialEq)]
+    pub struct MaybeBlob(pub Option<Vec<u8>>, pub u32);
+    impl BinarySerializer for MaybeBlob {
+        fn serialize<O: BinaryOutput>(&self, c: &mut SerializationContext<O>) -> desert::Result<()> {
+            match &self.0 {
+                Some(d) => c.write_compressed(d, Compression::new(self.1)),
+                None => Ok(()),
+            }
+        }
+    }
+    impl BinaryDeserializer for MaybeBlob {
+        fn deserialize(c: &mut DeserializationContext<'_>) -> desert::Result<Self> {
+            Ok(MaybeBlob(c.read_compressed().ok(), 0))
+        }
+    }
+
+    /// two blocks in chunks of their own: whatever happens to the first, the second is framed by its chunk
+    #[derive(Debug, Clone, PartialEq, BinaryCodec)]
+    #[evolution(FieldAdded("a", MaybeBlob(None, 0)), FieldAdded("b", Blob(Vec::new(), 0)))]
+    pub struct BlobPair {
+        pub x: u8,
+        pub a: MaybeBlob,
+        pub b: Blob,
+    }
+
     #[derive(Debug, Clone, PartialEq, BinaryCodec)]
     pub enum BlobHolder {
         Empty,
         #[evolution(FieldAdded("n", None))]
         Full { k: u8, n: Option<BlobNest> },
     }
+}
+
+/// number of deflate bytes of a frame (what follows its two length fields)
+fn payload_len(frame: &[u8]) -> usize {
+    let mut i = SliceInput::new(frame);
+    let _ = i.read_var_u32();
+    i.read_var_u32().map(|n| n as usize).unwrap_or(0)
 }
 
 /// the frame must be the same bytes wherever the block is written, and the size calculator must count exactly them
@@ -125,6 +158,26 @@ fn through_contexts(acc: &mut Acc, data: &[u8], level: u32, frame: &[u8]) {
             let b3 = desert::serialize_to_byte_vec(&holder).map_err(|e| e.to_string())?;
             if b3 != exp_holder {
                 return Err(format!("evolved constructor holding the nested records: {} expected {}", short(&b3), short(&exp_holder)));
+            }
+            // a valid block read after a damaged one in the same context: the first block's payload is flipped at several
+            // places (its two length fields stay intact), the second block sits in the next chunk
+            let pair = BlobPair { x: 5, a: MaybeBlob(Some(data.to_vec()), level), b: Blob(data.iter().rev().cloned().collect(), level) };
+            let want_b: Vec<u8> = data.iter().rev().cloned().collect();
+            let pb = desert::serialize_to_byte_vec(&pair).map_err(|e| e.to_string())?;
+            let frame_a_payload = 1 + vi(1).len() + vi(frame.len()).len() + {
+                let fb = desert::serialize_to_byte_vec(&Blob(want_b.clone(), level)).map_err(|e| e.to_string())?;
+                vi(fb.len()).len()
+            } + 1 + (frame.len() - payload_len(frame));
+            let z = payload_len(frame);
+            for k in 0..z.min(6) {
+                let at = frame_a_payload + (k * 7919) % z;
+                let mut damaged = pb.clone();
+                damaged[at] ^= 0x5a;
+                match desert::deserialize::<BlobPair>(&damaged) {
+                    Ok(p) if p.x == 5 && p.b.0 == want_b => {}
+                    Ok(p) => return Err(format!("block after a damaged block: second block read back as {} bytes (x = {})", p.b.0.len(), p.x)),
+                    Err(e) => return Err(format!("block after a damaged block: {e}")),
+                }
             }
             let mut ctx = SerializationContext::new(SizeCalculator::new());
             holder.serialize(&mut ctx).map_err(|e| e.to_string())?;
